@@ -226,7 +226,7 @@ def check(pid, tier, seed):
         if pid in owners(info):
             nx = info.get("next") or {}
             sig = "pool@%s(k=%s,n=%s)" % (nx.get("e"), nx.get("k"), nx.get("n"))
-            verdict.violation(sig, {"matched": info["matched"], "next": nx}, {"component": "pool", "source": src[x], "events": info["events"]})
+            verdict.violation(sig, {"matched": info["matched"], "next": nx}, {"component": "pool", "xid": x, "source": src[x], "events": info["events"]})
     distinct = len({json.dumps(e) for e in execs.values()})
     samples = [{"source": src[x], "events": execs[x][:40]} for x in list(execs)[:1] + list(yres)[:2]]
     cov = {
@@ -243,3 +243,16 @@ def check(pid, tier, seed):
     rc = verdict.finish()
     common.write_evidence(pid, tier, seed, "model_checking", cov, ASSUMPTIONS, time.time() - t0, len(verdict.violations))
     return rc
+
+
+TRACE_SPEC = lambda pid: ("PoolPTrace.tla", "PoolPTrace_%s.cfg" % pid)
+
+
+def all_harnesses():
+    exe, _ = harness()
+    return {exe.name: exe}
+
+
+def replay(pid, path):
+    import sys
+    return common.replay(pid, path, sys.modules[__name__])
